@@ -1385,7 +1385,7 @@ fn fn_edits(
 	}
 	ctx.dropped_calls.extend(v.dropped_calls.iter().cloned());
 	ctx.out.marks.extend(v.marks.into_iter());
-	ctx.fn_meta.push(json!({"name": name, "loops": v.loop_ord, "closures": v.closure_ord,
+	ctx.fn_meta.push(json!({"name": name, "vx_qual": qual, "loops": v.loop_ord, "closures": v.closure_ord,
 		"safety_props": cfg.safety_props, "src_range": [whole.0, whole.1], "stub": stub}));
 	edits.extend(es);
 }
